@@ -94,6 +94,14 @@ func TestC16Rapid(t *testing.T) {
 		} else {
 			id = rapid.SampledFrom(c16IDs).Draw(t, "id")
 		}
+		if rapid.IntRange(0, 5).Draw(t, "nearNameMax") == 0 {
+			// make the final file name 236..256 bytes long (NAME_MAX is 255)
+			want := rapid.IntRange(236, 256).Draw(t, "nameLen")
+			fixed := len(vendor) + 1 + len(class) + 1 + len(".yaml")
+			if want > fixed+1 {
+				id = strings.Repeat("n", want-fixed)
+			}
+		}
 		c := c16Case{Kind: s.Kind, ID: id}
 		var name string
 		var gerr error
@@ -297,6 +305,9 @@ func TestC16Rapid(t *testing.T) {
 			fail(fmt.Sprintf("removing a missing name changed the tree: %v", d))
 		}
 		labels := []string{"gen:" + c.Gen, "ext:" + c.Ext, "lastdir:" + c.LastDir, fmt.Sprintf("dirs-%d", nd)}
+		if n := len(filepath.Base(target)); n >= 236 {
+			labels = append(labels, "name-length-236-to-255")
+		}
 		nontriv := c.LastDir != "existing" || len(c.Pre) > 0
 		if transient && strings.ContainsAny(id, "/.") {
 			labels = append(labels, "id-with-slash-or-dot")
